@@ -154,6 +154,21 @@ impl Code for bool {
     }
 }
 
+/// Allocate the buffer for `len` decoded bytes.
+///
+/// The length is read from the bytes being decoded and cannot be trusted: an allocation failure must be reported as an
+/// error instead of aborting the process.
+#[cfg(not(feature = "serde"))]
+fn try_alloc_for_decode(len: usize) -> Result<Vec<u8>> {
+    let mut v = Vec::new();
+    v.try_reserve_exact(len).map_err(|e| {
+        Error::new(crate::error::ErrorKind::Parse, "failed to allocate buffer for decoding")
+            .with_context("len", len)
+            .with_source(e)
+    })?;
+    Ok(v)
+}
+
 #[cfg(not(feature = "serde"))]
 impl Code for Vec<u8> {
     fn encode(&self, writer: &mut impl std::io::Write) -> Result<()> {
@@ -167,7 +182,7 @@ impl Code for Vec<u8> {
         Self: Sized,
     {
         let len = usize::decode(reader)?;
-        let mut v = Vec::with_capacity(len);
+        let mut v = try_alloc_for_decode(len)?;
         unsafe {
             v.set_len(len);
         }
@@ -193,7 +208,7 @@ impl Code for String {
         Self: Sized,
     {
         let len = usize::decode(reader)?;
-        let mut v = Vec::with_capacity(len);
+        let mut v = try_alloc_for_decode(len)?;
         unsafe { v.set_len(len) };
         reader.read_exact(&mut v).map_err(Error::io_error)?;
         String::from_utf8(v)
@@ -218,7 +233,7 @@ impl Code for bytes::Bytes {
         Self: Sized,
     {
         let len = usize::decode(reader)?;
-        let mut v = Vec::with_capacity(len);
+        let mut v = try_alloc_for_decode(len)?;
         unsafe { v.set_len(len) };
         reader.read_exact(&mut v).map_err(Error::io_error)?;
         Ok(bytes::Bytes::from(v))
